@@ -4,7 +4,10 @@ C02 - malformed command lines are rejected with the documented errors and only t
 Cases: (a) exhaustive token sequences over an adversarial alphabet x a catalogue of small formats,
 (b) random longer sequences, (c) single-fault mutants of well-formed lines (from the C01 generator)
 with the error class the statement demands.  Every case is parsed strict and lenient by the real
-parser and by the Lean model.
+parser and by the Lean model.  Where the format comes from is a dimension of its own: a fresh builder
+per format, or (`ext`) ONE builder that hands out the format, is then given more arguments/options and
+hands out a second, richer format - the line is parsed against the first format afterwards, and the
+model parses against what that format listed when it was taken.
 """
 import itertools
 
@@ -45,15 +48,22 @@ LEVEL_NOTE = ("Trusted: Lean kernel + standard axioms; the hand-written parser m
               "from the real builder (entry c02.wf, theorem wf_decides, compared with true on every case; the *_decided "
               "corollaries take the decided form). The hypotheses about the LINE (a well-formed prefix before the fault, "
               "SpellsPrefix) describe the case a fault theorem is about; the generated mutants exercise them through the oracle. "
+              "The format handed to the model is the listing read from the real format object at the moment it is taken "
+              "from its builder; the real parse happens after the builder was used further, so a format that changes with "
+              "its builder shows as a disagreement and, on the fault mutants, as a wrong error class. "
               "A default outside the model (e.g. a float default on an INTEGER optional-value option: int(2.5)) is rejected by the "
               "check and is not generated.")
 RULE = ("(a) all token sequences up to length L (quick 2, thorough 3) over a 38-token adversarial alphabet x 7 catalogue "
         "formats; (b) random sequences of length 3-6; (c) single-fault mutants of well-formed C01 lines. Non-trivial = the "
-        "sequence contains an option-like token or more positionals than the format takes; distinct = (format, tokens)")
+        "sequence contains an option-like token or more positionals than the format takes; distinct = (format, tokens). "
+        "Formats: built by a fresh builder, or (all catalogue formats x sequences up to L-1, 30 % of (b), 40 % of (c)) taken "
+        "from a builder that is extended afterwards (further arguments where the ordering rules allow them, options spelled "
+        "like the unknown options of the faults) and has built a second format before the line is parsed")
 TRUSTED_BASE = [
     "Lean 4.33 kernel; axioms within propext, Classical.choice, Quot.sound (audited per theorem on every run)",
     "lean/Clikit/Model/Parser.lean: hand-written model of DefaultArgsParser/Args (modelled, not verified; tied by the correspondence)",
-    "harness/parser_common.py + harness/props/c02.py: format construction through the real builder, generators, canonical encoding",
+    "harness/parser_common.py + harness/props/c02.py: format construction through the real builder (fresh, or one builder "
+    "reused for a second format), generators, canonical encoding",
     "CPython int()/float(): parameters of the model, supplied as tables by the running interpreter",
 ]
 ASSUMPTIONS = [
@@ -111,6 +121,18 @@ PREV = [[], ["alice", "bob", "-f", "--bar", "v"], ["p", "q", "-o7", "--num", "5"
         ["-f", "-b", "--num", "v", "--opt=x"], ["server", "3", "x", "-f", "-m", "4"]]
 
 
+# what the builder of each catalogue format receives AFTER the format was taken from it (a second command's format
+# derived from the same builder): one more positional where the argument rules allow one, and options spelled like the
+# alphabet's unknown ones
+EXT = [{"cmds": [], "args": [_a("x1", "required")], "opts": [_o("unknown", "z", "flag")]},
+       {"cmds": [], "args": [_a("x1", "optional")], "opts": [_o("unknown", "z", "required")]},
+       {"cmds": [], "args": [], "opts": [_o("unknown", "z", "flag"), _o("foo", "f", "flag")]},
+       {"cmds": [], "args": [_a("x1", "optional"), _a("x2", "multi")], "opts": [_o("bar", "b", "required")]},
+       {"cmds": [], "args": [], "opts": [_o("unknown", "z", "optional")]},
+       {"cmds": [], "args": [_a("x1", "required"), _a("x2", "optional")], "opts": [_o("unknown", "z", "flag")]},
+       {"cmds": [], "args": [_a("x1", "optional")], "opts": [_o("unknown", "z", "flag"), _o("bar", "b", "flag")]}]
+
+
 def _mutants(rng, spec, tokens, intent):
     """single-fault mutants of a well-formed line, with the error class required in strict mode"""
     cmds, args, opts = pc.spec_flat(spec)
@@ -161,33 +183,56 @@ def _mutants(rng, spec, tokens, intent):
     return out
 
 
+def _with_ext(case, ext):
+    """the format of the case is taken from a builder that goes on to build a second, richer format (`ext` = the
+    elements it receives afterwards); the line is parsed against the FIRST format once the second exists"""
+    if ext is not None and (ext["args"] or ext["opts"] or ext["cmds"]):
+        case["ext"] = ext
+    return case
+
+
 def generate(tier, rng):
     L = 2 if tier == "quick" else 3
     for fi, spec in enumerate(CATALOGUE):
         for n in range(0, L + 1):
             for seq in itertools.product(ALPHABET, repeat=n):
                 yield {"spec": spec, "tokens": list(seq), "kind": "exh", "fmt": fi, "prev": PREV[fi]}
+    # the catalogue formats taken from a builder that is extended afterwards (one builder, two formats)
+    for fi, spec in enumerate(CATALOGUE):
+        for n in range(0, L):
+            for seq in itertools.product(ALPHABET, repeat=n):
+                yield _with_ext({"spec": spec, "tokens": list(seq), "kind": "exh", "fmt": fi, "prev": PREV[fi]}, EXT[fi])
     nrand = 6000 if tier == "quick" else 150000
     for _ in range(nrand):
         spec = rng.choice(CATALOGUE) if rng.random() < 0.6 else pc.gen_format(rng)
         n = rng.randint(3, 6)
-        yield {"spec": spec, "tokens": [rng.choice(ALPHABET) for _ in range(n)], "kind": "rand",
-               "prev": [rng.choice(ALPHABET) for _ in range(rng.randint(0, 4))]}
+        yield _with_ext({"spec": spec, "tokens": [rng.choice(ALPHABET) for _ in range(n)], "kind": "rand",
+                         "prev": [rng.choice(ALPHABET) for _ in range(rng.randint(0, 4))]},
+                        pc.gen_ext(rng, spec) if rng.random() < 0.3 else None)
     nmut = 1500 if tier == "quick" else 20000
     for _ in range(nmut):
         spec = pc.gen_format(rng)
         tokens, intent = pc.gen_line(rng, spec, omit_cmd_suffix=False)
+        ext = pc.gen_ext(rng, spec) if rng.random() < 0.4 else None
         for toks, want, what in _mutants(rng, spec, tokens, intent):
-            yield {"spec": spec, "tokens": toks, "kind": "fault", "want": want, "fault": what, "prev": tokens}
+            yield _with_ext({"spec": spec, "tokens": toks, "kind": "fault", "want": want, "fault": what, "prev": tokens}, ext)
 
 
 def exhaustive(tier):
     return False   # the exhaustive part is complete, the random part is not
 
 
+def _format(case):
+    """the format the line is parsed against.  With `ext` it comes from a builder that has meanwhile been given more
+    elements and has built a second format."""
+    if case.get("ext"):
+        return pc.build_format_reused(case["spec"], case["ext"])[0]
+    return pc.build_format(case["spec"])
+
+
 def run_impl(case):
     from clikit.args.default_args_parser import DefaultArgsParser
-    fmt = pc.build_format(case["spec"])
+    fmt = _format(case)
     return {"strict": pc.run_parse(DefaultArgsParser(), fmt, case["tokens"], False),
             "lenient": pc.run_parse(DefaultArgsParser(), fmt, case["tokens"], True),
             "strict_reused": pc.run_reused(fmt, case.get("prev", []), case["tokens"], False),
@@ -195,8 +240,10 @@ def run_impl(case):
 
 
 def model_requests(case):
-    fmt = pc.build_format(case["spec"])
-    flat = pc.flatten(fmt)
+    # a format is what it listed when it was taken from its builder: what the builder is used for afterwards is not
+    # part of the parse request
+    # (the listing is read before any later use of the builder: `ext` plays no part here)
+    flat = pc.flatten(pc.build_format(case["spec"]))
     reqs = [pc.model_request(flat, case["tokens"], False), pc.model_request(flat, case["tokens"], True)]
     # the hypotheses ABOUT THE FORMAT of the C02 theorems (FmtWF, LongOK of every option, MultiLast, distinct keys),
     # decided by the model on the format the REAL builder produced (theorem wf_decides), with the same conversion tables
@@ -285,18 +332,29 @@ def nontrivial_key(case, obs):
     import json
     t = case["tokens"]
     if any(x.startswith("-") and x != "-" for x in t) or len(t) >= 2:
-        return json.dumps([case.get("fmt", case["spec"]), t], sort_keys=True)
+        return json.dumps([case.get("fmt", case["spec"]), t] + ([case["ext"]] if case.get("ext") else []), sort_keys=True)
     return None
 
 
 def bucket(case, obs):
     s = obs["strict"].get("err", "ok")
     l = obs["lenient"].get("err", "ok")
-    return "%s|strict=%s|lenient=%s" % (case["kind"], s, l)
+    return "%s%s|strict=%s|lenient=%s" % (case["kind"], "+builder-reused" if case.get("ext") else "", s, l)
 
 
 def shrink(case):
     t = case["tokens"]
+    ext = case.get("ext")
+    if ext:
+        # fewer additions to the builder after the format was taken (the fault class of a mutant is about `spec`)
+        for key in ("opts", "args"):
+            for i in range(len(ext[key]) - 1, -1, -1):
+                e2 = dict(ext)
+                e2[key] = ext[key][:i] + ext[key][i + 1:]
+                c = dict(case)
+                if e2["args"] or e2["opts"] or e2["cmds"]:
+                    c["ext"] = e2
+                    yield c
     for i in range(len(t)):
         c = dict(case)
         c["tokens"] = t[:i] + t[i + 1:]
